@@ -19,7 +19,7 @@ TEXT = {
     'C06': ('E2', 'as C05 with the fault in Clone / closure / iterator, plus the no-leak obligation; Guard::drop and other cleanup-only code is executed on the unwind edge.', 'MIR -> C with explicit unwinding -> CBMC, symbolic crash point'),
     'C07': ('E1', 'bounded model checking: all accessors compared by element identity and address at a symbolic position and at every position; mutable accessors chosen symbolically, write-through effect compared with the model.', 'symbolic execution (Kani/CBMC), address comparison'),
     'C08': ('E1', 'bounded model checking: symbolic RangeBounds (all variants, unconstrained values) and symbolic next/next_back/len/clone scripts for iter, iter_mut, range, range_mut, into_iter.', 'symbolic execution (Kani/CBMC) with symbolic scripts'),
-    'C09': ('E1', 'bounded model checking: symbolic range and consumption script, drain dropped after any prefix; contents, order and destructor counts compared with the model; N = 0 included.', 'symbolic execution (Kani/CBMC) with symbolic scripts'),
+    'C09': ('E1+E2', 'bounded model checking: symbolic range and consumption script, drain dropped after any prefix; contents, order and destructor counts compared with the model; N = 0 included.  Second engine: the translated Drain::drop from every Drain state reachable by such scripts (no fault), same post-condition.', 'symbolic execution (Kani/CBMC) with symbolic scripts + MIR-level cross-check'),
     'C10': ('E1', 'bounded model checking of the stated relation (not of current behaviour): after mem::forget of a drain at a symbolic point the buffer holds live, distinct, original, not-handed-out elements; one further symbolic operation and the final drop never destroy anything twice.', 'symbolic execution (Kani/CBMC)'),
     'C11': ('E1+E2', 'E1: under the documented panic condition the call never returns and no memory-safety check fails; under its negation (and for every other method with unconstrained arguments) no check fails and all loops terminate within the unwinding bound. E2: panics iff documented and the buffer is bit-for-bit unchanged at the catch.', 'Kani unreachability/totality queries + MIR-level unchanged-after-panic'),
     'C12': ('E1', 'bounded model checking: new/default/boxed, From<[T; M]> for M in 0..=2N+1, from_iter, clone, clone_from (symbolic destination), to_vec, into_iter; identity of clones vs originals and independence under either drop order.', 'symbolic execution (Kani/CBMC)'),
